@@ -56,6 +56,9 @@ CHECKS = {
  "C15": dict(cat="exploration", technique="Go race detector + panic/deadlock/termination monitors over chaos workloads with schedule perturbation; porcupine linearizability of recorded store histories",
    text="Chaos runs (20-60 clients incl. shared client ids, slow consumers, half-open and refused connections, 4 API goroutines, wills, expiries, Stop under traffic, GOMAXPROCS 1/2/4/16, seeded delays at lock hand-over points) under the race detector; monitors: race log filtered to gmqtt frames, recovered/fatal panics, 30 s request watchdog with goroutine dumps, Stop result and duration, listeners closed, sockets at EOF, plugin Load/Unload/OnStop exactly once, no broker goroutine left after 10 s; recorded concurrent histories of the retained and subscription stores checked with porcupine.",
    note="the race detector only sees schedules produced; goroutines attributed by function name with one broker per process at a time; known finding: Stop does not close not-yet-registered connections", ref="§5 C15"),
+ "C06": dict(cat="exploration", technique="differential codec monitor (independent mqttx codec), structure-aware + mutation + random + length-bomb generators, framing/allocation/hang monitors, exhaustive string predicates",
+   text="Millions of generated inputs (well-formed packets of all 15 types and 3 versions with every property, byte-level mutations, raw bytes, tiny inputs declaring huge lengths) are fed to gmqtt's decoder under recover, a 10 s hang watchdog, a counting reader with a trailer packet (framing) and a TotalAlloc monitor (allocation bound); accepted packets are re-encoded and re-decoded; well-formed values are cross-encoded/decoded with an independent codec; reported sizes are compared with encoded lengths; validity predicates are compared exhaustively on all strings up to length 6 over a hostile alphabet.",
+   note="trusted: mqttx (written from the OASIS specs, own test-suite); leniency outside the explicit malformed classes is counted, not judged; 20 low-severity codec findings are listed as known", ref="§5 C06"),
 }
 
 def main():
